@@ -38,13 +38,14 @@ Definition macro_value (mt : mtable) (d : macro_def) : option value :=
   end.
 
 (* routine and macro definitions in program order; a definition may sit inside the
-   branches of an `if` or the body of a loop (never inside a routine) *)
+   branches of an `if` or the body of a loop; a routine is never defined inside a routine, a constant may be -- it is global
+   all the same (Parser._macro_definition: "The symbol has global scope, even if it is defined inside a routine") *)
 Fixpoint collect_stmt (fuel : nat) (s : stmt) (acc : rtable * mtable) {struct fuel} : rtable * mtable :=
   match fuel with
   | O => acc
   | S f =>
     match s with
-    | SDefineRoutine g ps body => (fst acc ++ [(g, mkRdef ps body)], snd acc)
+    | SDefineRoutine g ps body => (fst acc ++ [(g, mkRdef ps body)], snd (collect_stmt f body acc))
     | SDefineMacro m d =>
         match macro_value (snd acc) d with
         | Some v => (fst acc, snd acc ++ [(m, v)])
